@@ -335,4 +335,15 @@ def holdsBuild (c : IPText) (host : Text) (port : Nat) (payload : Bytes) (o : BO
     | .ok d => sameDest c host d.host && d.port == port && d.payload == payload
     | .fail _ => false))
 
+/-! ### Datagrams relayed to the tunnels -/
+
+/-- What the tunnels must receive for the datagrams `ds`: one `SendPacket` per datagram the RFC gives
+a reading, to that destination, carrying exactly that datagram's payload. -/
+def relayExpect (c : IPText) (ds : List Bytes) : List UDest := ds.filterMap (udpExpect c)
+
+/-- **The relay property on one observation**: the packets handed to the tunnels are, up to order
+(goroutines finish in any order), exactly the expected ones — none corrupted, lost or duplicated. -/
+def holdsRelay (c : IPText) (ds : List Bytes) (sent : List UDest) : Bool :=
+  sent.isPerm (relayExpect c ds)
+
 end Tunnox.C20
